@@ -196,8 +196,9 @@ def functions_encoded():
 _CHILD = r'''
 import os, sys, json
 sys.path.insert(0, %(root)r)
-import dds, dds._api as api, dds.store as store, dds.codecs.builtins as bc
+import dds, dds._api as api, dds.store as store
 from vlib import tick, h
+from vlib.models import fsmodel
 import vpipes.p1 as p1
 h.quiet_logs(); h.install_clock()
 cfg = json.loads(%(cfg)r)
@@ -206,42 +207,21 @@ p1.VERSION = cfg["version"]
 dds.accept_module("vpipes")
 state = {"n": 0}
 crash_at, torn = cfg["crash_at"], cfg["torn"]
-def tickop(kind, fobj=None, data=None):
+def gate(op, args):
+    # same operation granularity as the model: the facades are shared, only the backend is the real OS
+    if op not in fsmodel.MUTATING:
+        return
     k = state["n"]; state["n"] = k + 1
     if crash_at is not None and k == crash_at:
-        if kind == "write":
+        if op == "write":
+            handle, data = args
             t = max(len(data) - 1, 0) if torn == 4 else torn
-            fobj.write(data[:t]); fobj.flush()
+            handle.f.write(data[:t]); handle.f.flush()
         os._exit(137)
-class F:
-    def __init__(self, f): self.f = f
-    def write(self, data): tickop("write", self.f, bytes(data)); return self.f.write(data)
-    def __getattr__(self, n): return getattr(self.f, n)
-    def __enter__(self): return self
-    def __exit__(self, *a): self.f.close(); return False
-def my_open(path, mode="r", *a, **kw):
-    if "w" in mode: tickop("open_w")
-    f = open(path, mode, *a, **kw)
-    return F(f) if "w" in mode else f
-class OS:
-    path = os.path
-    def __getattr__(self, n): return getattr(os, n)
-    def mkdir(self, p, mode=0o777): tickop("mkdir"); return os.mkdir(p, mode)
-    def makedirs(self, name, mode=0o777, exist_ok=False):
-        head, tail = os.path.split(name)
-        if not tail: head, tail = os.path.split(head)
-        if head and tail and not os.path.exists(head):
-            try: self.makedirs(head, exist_ok=exist_ok)
-            except FileExistsError: pass
-        try: self.mkdir(name, mode)
-        except OSError:
-            if not exist_ok or not os.path.isdir(name): raise
-    def remove(self, p): tickop("unlink"); return os.remove(p)
-    unlink = remove
-    def symlink(self, a, b): tickop("symlink"); return os.symlink(a, b)
-    def rename(self, a, b): tickop("rename"); return os.rename(a, b)
-    def replace(self, a, b): tickop("rename"); return os.replace(a, b)
-store.os = OS(); store.open = my_open; bc.open = my_open
+fs = fsmodel.RealFS(gate)
+fs.split_writes = False
+fsmodel.install(fs)
+store.os.getpid = os.getpid
 out = {}
 try:
     api.set_store("local", cfg["int"], cfg["data"], None, None, None)
